@@ -318,7 +318,7 @@ class Formatter:
             return self.format_empty_string(arg)
         if re.search(r"[\"']", arg):  # contains a nested string
             return self.format_string_with_nested_string(arg)
-        if re.search(r"[\s:/\\]", arg):  # contains spaces or path -> complex string
+        if re.search(r"[\s:/\\;,{}()\[\]<>]", arg):  # contains spaces, path or structural characters -> complex string
             return self.format_multi_word_string(arg)
         # single word string
         return self.format_single_word_string(arg)
